@@ -7,6 +7,24 @@ func allOrder() map[string]bool {
 
 func init() {
 	register(&propertyDef{
+		id:      "T1",
+		explain: "scratch",
+		run: func(p *Program, rep *Report, tier string) {
+			guard(rep, "DEFERFREE", func() { ruleDEFERFREE(p, rep) })
+			guard(rep, "ALLOC-RECORDED", func() { ruleALLOCRECORDED(p, rep) })
+			guard(rep, "INV-FL", func() { ruleINVFL(p, rep) })
+			guard(rep, "CAPACITY", func() { ruleCAPACITY(p, rep) })
+			guard(rep, "UNDO-JOURNAL", func() { ruleUNDOJOURNAL(p, rep) })
+			guard(rep, "STICKY", func() { ruleSTICKY(p, rep) })
+			guard(rep, "STABLE-BATCH", func() { ruleSTABLEBATCH(p, rep) })
+			guard(rep, "SHADOW", func() { ruleSHADOW(p, rep) })
+			guard(rep, "BUFFER-PRESERVE", func() { ruleBUFFERPRESERVE(p, rep) })
+			guard(rep, "WAL-RELEASE-ON-FREE", func() { ruleWALRELEASEONFREE(p, rep) })
+			guard(rep, "PAGE-BOUNDS", func() { rulePAGEBOUNDS(p, rep) })
+			guard(rep, "SETBYTES-BOUND", func() { ruleSETBYTESBOUND(p, rep) })
+		},
+	})
+	register(&propertyDef{
 		id:      "C15",
 		explain: "LIFECYCLE",
 		run: func(p *Program, rep *Report, tier string) {
